@@ -152,6 +152,12 @@ def build_lib(flavor, extra_defs=()):
                     os.rename(tmp, o)
                 with ThreadPoolExecutor(16) as ex:
                     list(ex.map(cc, jobs))
+                _gc(objdir, set(objs), 400, 300)
+    for o in objs:
+        try:
+            os.utime(o, None)  # LRU stamp for _gc
+        except OSError:
+            pass
     return objs
 
 
@@ -194,6 +200,22 @@ def build_harness(src_rel, flavor="asan", extra_flags=(), extra_link=(), extra_s
                 except OSError:
                     pass
     return exe
+
+
+def _gc(d, keep, high, low):
+    """Bounded disk use: when more than `high` cached files exist, drop the least recently used down to `low`."""
+    try:
+        files = [os.path.join(d, f) for f in os.listdir(d) if ".tmp" not in f]
+    except OSError:
+        return
+    if len(files) <= high:
+        return
+    files = sorted((f for f in files if f not in keep), key=lambda f: os.path.getmtime(f))
+    for f in files[:max(0, len(files) + len(keep) - low)]:
+        try:
+            os.unlink(f)
+        except OSError:
+            pass
 
 
 def gc_objects(keep=()):
